@@ -133,6 +133,23 @@ def run_case(g, H):
                 pass
             for dep_, f_ in late:
                 dep_.script.append({"src": f_})
+        if g.get("seq") == "other_place_first":
+            # the same dependency objects saved somewhere else first, with the other settings
+            other_dest = os.path.join(tmp, "elsewhere")
+            os.makedirs(other_dest)
+            try:
+                H.TagList("first", *deps).save_html(os.path.join(other_dest, "o.html"), libdir="assets/x", include_version=not g["inclver"])
+            except Exception:  # noqa
+                pass
+        if g.get("seq") == "json_roundtrip":
+            # the dependencies travel as JSON through a text and come back from HTMLTextDocument before they are saved
+            try:
+                text = "<html><head>PH</head><body>" + "".join(d_.serialize_to_script_json().get_html_string() for d_ in deps) + "</body></html>"
+                back = H.HTMLTextDocument(text, deps_replace_pattern="PH").render()["dependencies"]
+                if len(back) == len(deps):
+                    deps = back
+            except Exception:  # noqa
+                pass
         if g.get("seq") == "edit_as_dict":
             # what as_dict() hands back is the caller's: editing it changes nothing about the dependency
             for dep_ in deps:
@@ -241,7 +258,7 @@ class C12(Prop):
                              "href": rnd.choice(["https://cdn.example/lib", "https://cdn.example/lib/"]),
                              "links": [f for f in listed if f.endswith(".css")], "scripts": [f for f in listed if not f.endswith(".css")],
                              "present": present, "allfiles": rnd.random() < 0.3, "stale": rnd.choice(["none", "file", "other"])})
-            gens.append({"kind": "case", "seed": n, "twice": rnd.random() < 0.3, "seq": rnd.choice(["", "", "append_after", "edit_as_dict"]),
+            gens.append({"kind": "case", "seed": n, "twice": rnd.random() < 0.3, "seq": rnd.choice(["", "", "append_after", "edit_as_dict", "other_place_first", "json_roundtrip"]),
                          "libdir": rnd.choice(["lib", None, "a/b", "my lib"]), "inclver": rnd.random() < 0.5,
                          "how": rnd.choice(["tag", "list", "doc", "html", "doc_html", "body", "list_html"]), "file": rnd.choice(["page.html", "sub dir/index.html"]) if False else "page.html",
                          "deps": deps})
